@@ -125,6 +125,57 @@ def pruning_obligations(prefix):
     return obs, fns
 
 
+def ring_bound_obligations(prefix):
+    """The termination test of the ring search: after rings 0..r, `dist_to_face + r * <cell width>` must be a lower bound for the distance to any
+    point of a cell at Chebyshev ring distance >= r + 1 - for cells that are not cubes too (the statement is evaluated from the source)."""
+    u = Unit(SP, "Space::knn")
+    lets = extract.find_nodes(u.fn["body"], lambda n: n.get("k") == "let" and n["pat"].get("name") == "min_dist_to_ring")
+    if len(lets) != 1: raise extract.Undecided("lost anchor: let min_dist_to_ring in Space::knn")
+    loc, w, pos, q = vec("cell_loc"), vec("cell_width"), vec("pos"), vec("q")
+    cell0 = Struct("Cell", {"loc": loc, "width": w, "offset": Var("off", "Int"), "count": Var("cnt", "Int")})
+    um = Unit(SP, "Cell::min_distance_to_face")
+    dtf, _, ctxm, _ = um.run({"self": cell0, "pos": pos}, extra_files=XF)
+    # the ring index is relaxed to a non-negative REAL (the bound is then proved for more values than needed): keeps the query in pure real arithmetic
+    r = Var("r", "Real")
+    cells = SymArr(lambda i: Struct("Cell", {"loc": vec("other_loc"), "width": w, "offset": Var("o2", "Int"), "count": Var("c2", "Int")}))   # every cell has the same width (grid obligations)
+    ctx = symex.Ctx(); ctx.resolver = u.resolver(XF)
+    it = symex.Interp(ctx, {})
+    env = symex.Env(ctx, {"self": Struct("Space", {"cells": cells}), "dist_to_face": dtf, "r": r}, TRUE, "Space")
+    bound = it.ev(env, lets[0]["init"])
+    inp = [And(Le(loc.c[a], pos.c[a]), Le(pos.c[a], loc.c[a] + w.c[a])) for a in range(3)]
+    d = Var("ring", "Real")
+    obs = []
+    base = [Gt(x, R0) for x in w.c] + inp + [Ge(r, R0), Ge(d, r + Const(1, "Real"))] + ctx.assume + ctx.ok + ctxm.assume + ctxm.ok
+    obs.append(Obligation(prefix + ".ring.requires_satisfiable", base, TRUE, u.label + " / let min_dist_to_ring", expect_sat=True))
+    goals = []
+    for a in range(3):
+        # q lies in a cell whose index along axis a differs by +d resp. -d from the particle's cell
+        up = Ge(q.c[a], loc.c[a] + tm.ToReal(d) * w.c[a])
+        dn = Le(q.c[a], loc.c[a] + w.c[a] - tm.ToReal(d) * w.c[a])
+        goals.append(Implies(Or(up, dn), And(Ge(bound, R0), Le(bound * bound, norm2(sub(q, pos))))))
+    for a, g_ in zip("xyz", goals):
+        obs.append(Obligation(prefix + ".ring.termination_bound_is_a_lower_bound_for_every_cell_beyond_ring_r_along_%s_also_for_non_cubic_cells" % a, base, g_, u.label + " / let min_dist_to_ring",
+                              timeout=120, replay=lambda ob: _as_replay(knn_probe(20260930, 8))))
+    return obs, [{"fn": u.label + " / let min_dist_to_ring", "slice_sha": extract.sha(extract.text_of(u.tree, lets[0]))}]
+
+
+def welzl_entry_obligations(prefix):
+    """Welzl::bounding_sphere is nothing but the recursion started on all points with an empty boundary (no shortcut that bypasses it)."""
+    u = Unit("bounding_sphere.rs", "Welzl::bounding_sphere@BoundingSphereSolver")
+    pts = SymArr(lambda i: vec("pt")); pts.length = Var("n_points", "Int", "usize")
+    name, args, env_at, ctx = run_until_call(u, {"points": pts}, ("Welzl::bounding_sphere_recursive",), extra_files=("geometry.rs",), self_ty="Welzl")
+    early = Or(*[c for c, _ in env_at.returns]) if env_at.returns else FALSE
+    o = Obligation(prefix + ".welzl.entry_point_reaches_the_recursion_for_every_input_no_shortcut", ctx.assume, And(Not(early), env_at.pc), u.label,
+                   note="whatever the number of points: no early return in front of the recursive solver", replay=lambda ob: _as_replay(sphere_probe(20260930, 30)))
+    o.havoc = True      # a structural fact: a shortcut may be harmless (e.g. for the empty set), so a refutation counts only if the probe reproduces a wrong sphere
+    return [o], [{"fn": u.label, "slice_sha": u.sha}]
+
+
+def _as_replay(res):
+    n, bad = res
+    return {"reproduced": bad is not None, "searched": n, "mismatch": bad}
+
+
 # ---------------------------------------------------------------- replay / bounded stand-ins on the real code
 def replay_grid(ob=None):
     """Space::new on non-cubic boxes through the hook: the cells must tile the box."""
@@ -157,6 +208,17 @@ def knn_probe(seed, n_sets):
         n = rng.choice([6, 40, 150])
         pos = [[anchor[a] + rng.random() * width[a] * 0.999 for a in range(3)] for _ in range(n)]
         reqs.append({"op": "space_knn", "anchor": anchor, "width": width, "max_cell_width": mx, "positions": pos, "k": rng.choice([0, 1, 5])})
+    # anisotropic cells, nearest neighbour two rings away along the short axis while a farther one sits in ring 1 along the long axis
+    for wx, wy in ((3.0, 2.0), (2.0, 3.0)):
+        width = [wx, wy, 2.0] ; mx = 0.75
+        import math
+        cd = [math.ceil(width[a] / mx) for a in range(3)]; cw = [width[a] / cd[a] for a in range(3)]
+        long_a, short_a = (0, 1) if cw[0] > cw[1] else (1, 0)
+        c = [(1 + 0.5) * cw[0], (1 + 0.5) * cw[1], (1 + 0.5) * cw[2]]          # centre of cell (1,1,1)
+        far = list(c); far[long_a] += 0.5 * cw[long_a] + 0.5 * (cw[short_a] + cw[long_a]) * 0.5 + 0.3 * cw[short_a]
+        near = list(c); near[short_a] -= 1.5 * cw[short_a] + 1e-3
+        if 0 <= near[short_a] and far[long_a] < width[long_a]:
+            reqs.append({"op": "space_knn", "anchor": [0, 0, 0], "width": width, "max_cell_width": mx, "positions": [c, far, near], "k": 1})
     for rq, a in zip(reqs, replay_requests(reqs, timeout=600)):
         pos, k = rq["positions"], rq["k"]
         if "knn" not in a: return len(reqs), {"request": {k_: v for k_, v in rq.items() if k_ != "positions"}, "n": len(pos), "real": a, "what": "knn panics"}
@@ -186,12 +248,42 @@ def sphere_probe(seed, n_sets):
         for p in rq["points"]:
             if sum((p[t] - c[t]) ** 2 for t in range(3)) ** 0.5 > r * (1 + 1e-7) + 1e-9 * sc:
                 return len(reqs), {"request": rq, "real": a, "point_outside": p, "what": "bounding sphere does not contain a given point"}
+        if rq["exact"] and len(rq["points"]) <= 7:
+            rmin = _min_sphere_radius(rq["points"])
+            if rmin is not None and r > rmin * (1 + 1e-6) + 1e-9 * sc:
+                return len(reqs), {"request": rq, "real": a, "minimal_radius_by_brute_force": rmin, "what": "the exact solver's sphere is not the minimal one"}
     return len(reqs), None
+
+
+def _min_sphere_radius(pts):
+    """Brute force: the minimal enclosing sphere is the smallest sphere through 2, 3 or 4 of the points (centre in their affine hull) that contains all."""
+    import itertools
+    def sub(a, b): return [a[i] - b[i] for i in range(3)]
+    def dot(a, b): return sum(a[i] * b[i] for i in range(3))
+    def cross(a, b): return [a[1] * b[2] - a[2] * b[1], a[2] * b[0] - a[0] * b[2], a[0] * b[1] - a[1] * b[0]]
+    best = None
+    def consider(c):
+        nonlocal best
+        r = max(dot(sub(p, c), sub(p, c)) for p in pts) ** 0.5
+        if best is None or r < best: best = r
+    for a, b in itertools.combinations(pts, 2): consider([(a[i] + b[i]) / 2 for i in range(3)])
+    for a, b, c in itertools.combinations(pts, 3):
+        u, v = sub(a, c), sub(b, c); n = cross(u, v); n2 = dot(n, n)
+        if n2 < 1e-18 * (dot(u, u) * dot(v, v) + 1e-300): continue
+        t = cross([dot(u, u) * v[i] - dot(v, v) * u[i] for i in range(3)], n)
+        consider([c[i] + t[i] / (2 * n2) for i in range(3)])
+    for a, b, c, d in itertools.combinations(pts, 4):
+        u, v, w = sub(b, a), sub(c, a), sub(d, a)
+        det = dot(u, cross(v, w))
+        if abs(det) < 1e-12 * (dot(u, u) * dot(v, v) * dot(w, w)) ** 0.5 + 1e-300: continue
+        t = [dot(u, u) * x + dot(v, v) * y + dot(w, w) * z for x, y, z in zip(cross(v, w), cross(w, u), cross(u, v))]
+        consider([a[i] + t[i] / (2 * det) for i in range(3)])
+    return best
 
 
 def run(tier, seed):
     obs, fns = [], []
-    for f in (grid_obligations, binning_obligations, pruning_obligations):
+    for f in (grid_obligations, binning_obligations, pruning_obligations, ring_bound_obligations, welzl_entry_obligations):
         o, fn = f("C20"); obs += o; fns += fn
     smt.discharge_all(obs, tier)
     results = [runner.from_smt(o) for o in obs]
